@@ -5,7 +5,7 @@ from ..inline import expanded_fn, normalize_fn
 
 XW = "UTAP::XMLWriter"
 # methods the rules are stated about (never expanded into their callers) and the output primitives they look for
-ANCHORS = ("transition", "labels", "location", "source", "target", "selfLoop", "name", "writeStateAttributes", "taTempl",
+ANCHORS = ("transition", "labels", "location", "branchpoint", "source", "target", "selfLoop", "name", "writeStateAttributes", "taTempl",
            "init", "startElement", "endElement", "writeAttribute", "writeElement", "writeString", "xmlwriteString",
            "label", "concat", "declaration", "system_instantiation", "project")
 
@@ -83,7 +83,7 @@ def run(chk, F):
     for k in sorted(written):
         chk.ob(rid, "kind|%s" % k, k in kinds,
                "the writer emits <label kind=\"%s\">, which the reader does not route to the grammar" % k, where)
-    for k in ("invariant", "exponentialrate", "guard", "synchronisation", "assignment", "select"):
+    for k in ("invariant", "exponentialrate", "guard", "synchronisation", "assignment", "select", "probability"):
         chk.ob(rid, "kind-written|%s" % k, k in written, "the writer never emits <label kind=\"%s\">" % k, where)
     # endpoints
     for name, member, other in (("source", "src", "dst"), ("target", "dst", "src")):
@@ -96,7 +96,12 @@ def run(chk, F):
         # null endpoint (branchpoint edges have srcb/dstb instead)
         derefs = [n for n in walk(fn["body"]) if n.get("k") == "member" and n.get("arrow") and
                   (n.get("base") or {}).get("name") == member]
-        guarded = any(n.get("k") == "if" and member in short(n["c"]) for n in walk(fn["body"]))
+        guarded = any(n.get("k") in ("if", "cond") and member in short(n["c"]) for n in walk(fn["body"]))
+        # the other kind of endpoint: an edge that starts / ends in a branchpoint is written with the branchpoint's id
+        chk.ob(rid, "endpoint|%s|branchpoint" % name, (member + "b") in reads and
+               any(x.get("k") == "member" and x.get("name") == "bpNr" for x in walk(fn["body"])),
+               "XMLWriter::%s never looks at edge.%sb: an edge that %s a branchpoint gets no (or a wrong) %s reference" %
+               (name, member, "starts in" if member == "src" else "ends in", name), "%s:%s" % (fn["file"], fn["line"]))
         chk.ob(rid, "endpoint|%s|null" % name, not derefs or guarded,
                "XMLWriter::%s dereferences edge.%s, which is null for an edge that %s a branchpoint (edge_t::%sb is "
                "set instead): write_XML_file crashes on such a model" %
@@ -126,6 +131,37 @@ def run(chk, F):
            "taTempl does not write exactly one <location> per location in container order", "%s:%s" % (tt["file"], tt["line"]))
     chk.ob(rid, "template|edges", loop_calls("edges", "transition"),
            "taTempl does not write exactly one <transition> per edge in container order", "%s:%s" % (tt["file"], tt["line"]))
+    chk.ob(rid, "template|branchpoints", loop_calls("branchpoints", "branchpoint"),
+           "taTempl does not write exactly one <branchpoint> per branchpoint in container order: edges through "
+           "branchpoints refer to elements that are not in the file", "%s:%s" % (tt["file"], tt["line"]))
+    # element order as the reader reads it (R-ITER): locations, branchpoints, init, transitions
+    order = []
+    for st in tt["body"].get("s", []):
+        for nm_ in ("location", "branchpoint", "init", "transition"):
+            if any(c.get("name") == nm_ for c in calls(st)) and nm_ not in order:
+                order.append(nm_)
+    chk.ob(rid, "template|element-order", order == ["location", "branchpoint", "init", "transition"],
+           "taTempl writes the children of <template> in the order %s; the reader (and the DTD) expect locations, "
+           "branchpoints, init, transitions" % order, "%s:%s" % (tt["file"], tt["line"]))
+    # branchpoint ids: the same scheme (offset member + bpNr) where they are defined and where they are referenced, and the
+    # offset is the number of locations, so that no branchpoint id equals a location id
+    bp = X("branchpoint") if F.fn(XW + "::branchpoint", required=False) is not None else None
+    users = {"source": X("source"), "target": X("target")}
+    if bp is not None:
+        users["branchpoint"] = bp
+    offs = {}
+    for nm_, f_ in users.items():
+        ms = {x.get("name") for x in walk(f_["body"]) if x.get("k") == "member" and
+              (x.get("base") is None or (x.get("base") or {}).get("k") == "this")} | \
+             {x.get("name") for x in walk(f_["body"]) if x.get("k") == "ref" and x.get("dk") in ("member", "field")}
+        offs[nm_] = sorted(m_ for m_ in ms if any(
+            (y.get("k") in ("bin", "call")) and y.get("op") == "=" and m_ in short(y.get("lhs") or y.get("recv") or {}) and
+            "locations" in short(y) for y in walk(tt["body"])))
+    chk.ob(rid, "ids|branchpoint-offset", bp is not None and all(offs[k_] for k_ in users) and
+           len({tuple(v_) for v_ in offs.values()}) == 1,
+           "the ids of branchpoints are not built from one offset that taTempl sets to the number of locations of the "
+           "template (offset members used: %s): a branchpoint id can equal a location id, or a reference can name another "
+           "id than the definition" % offs, "%s:%s" % (tt["file"], tt["line"]))
     top_inits = [c for s in tt["body"].get("s", []) for c in ([s] if s.get("k") == "call" else []) if c.get("name") == "init"]
     chk.ob(rid, "template|init", len(calls(tt["body"], "init")) == 1 and len(top_inits) == 1,
            "taTempl does not write exactly one <init>", "%s:%s" % (tt["file"], tt["line"]))
@@ -140,7 +176,7 @@ def run(chk, F):
                 for c in calls(fn["body"], "writeAttribute")
                 if c.get("args") and any(x.get("k") == "str" and x.get("v") in ("id", "ref") for x in walk(c["args"][0]))}
     prefixes = set()
-    for fn in (X("writeStateAttributes"), X("source"), X("target"), ini):
+    for fn in [X("writeStateAttributes"), X("source"), X("target"), ini] + ([bp] if bp is not None else []):
         for c in calls(fn["body"], "concat"):
             for x in walk(c["args"][0]):
                 if x.get("k") == "str":
